@@ -1146,8 +1146,14 @@ fn run_excess_padding(
         ));
         return out;
     }
-    if only && errs.len() != 1 {
-        let other = errs.iter().find(|e| !e.text.contains("Payload error following RDH")).map(|e| clip(&e.text));
+    // ([E81]: a calibration-word index sequence that began inside the skipped payload is, rightly, reported
+    // when it continues in the next packet - the words that started it were never seen)
+    let counted = errs.iter().filter(|e| !e.codes.iter().any(|c| c == "E81")).count();
+    if only && counted != 1 {
+        let other = errs
+            .iter()
+            .find(|e| !e.text.contains("Payload error following RDH") && !e.codes.iter().any(|c| c == "E81"))
+            .map(|e| clip(&e.text));
         out.fail = Some(Fail::new(
             "padding",
             "state-not-reset",
